@@ -32,7 +32,9 @@ LEVEL_TEXT = ("Lean theorems, parametric in the element table and instantiated o
               "(table_wellFormed, precedence_table by kernel evaluation): sy_correct - for EVERY expression tree and EVERY "
               "writing of it with at least the necessary and any number of redundant parentheses the shunting-yard loop "
               "returns the tree's postfix form; parsePostfix_postfix / parse_print - Function.parse of any writing is the "
-              "tree; postfix_roundtrip - tree value = reverse-Polish value for any interpretation; rejection for EVERY "
+              "tree; postfix_roundtrip / loaded_postfix_roundtrip - for every tree, and for the tree of EVERY accepted token "
+              "list, parsing its postfix form gives the tree back and tree value = reverse-Polish value for any "
+              "interpretation; rejection for EVERY "
               "token list: operand balance != 1 (missing operand, wrong arity) and #( != #) are SyntaxErrors "
               "(reject_operand_balance, reject_missing_operand, reject_wrong_arity, reject_unbalanced_parenthesis); "
               "membership_rejects_name_clash.  Correspondence: the same executable definitions (character-level "
@@ -489,6 +491,33 @@ def oracle(case):
     return True, "ok"
 
 
+def shrink(case):
+    """smallest sub-formula (minimal writing, single spaces) on which the property oracle still fails"""
+    if case.get("kind") != "wf" or not case.get("tree"):
+        return case
+    best = case
+    budget = 150
+    improved = True
+    while improved and budget > 0:
+        improved = False
+        tree = best["tree"]
+        cands = [c for c in tree[1:]] if tree[0] != "leaf" else []
+        plain = dict(best, text=join_tokens(writing(tree, 0, 0)), style="min")
+        for cand in [plain] + [dict(best, tree=c, text=join_tokens(writing(c, 0, 0)), style="min") for c in cands]:
+            budget -= 1
+            if cand["text"] == best["text"] and cand["tree"] == best["tree"]:
+                continue
+            try:
+                ok, _ = oracle(cand)
+            except Exception:  # noqa: BLE001
+                ok = True
+            if not ok:
+                best = cand
+                improved = True
+                break
+    return best
+
+
 # ------------------------------------------------------------------------------------------------ generators
 def gen_env(rng, tree_names, arrays):
     """engine variables (inputs and outputs), term variables, x"""
@@ -733,14 +762,24 @@ def correspond(ctx):
                                    f"NumPy on the model's tree {dv!r}")
                             break
         if bad:
-            mism.append({"case": case, "impl": {k: r[k] for k in ("load", "postfix", "value", "err")}, "model": o[:300],
-                         "what": bad})
+            ok, detail = oracle(case)
+            if not ok:
+                small = shrink(case)
+                ok2, detail2 = oracle(small)
+                mism.append({"case": small if not ok2 else case, "violation": True,
+                             "detail": detail2 if not ok2 else detail, "what": bad, "model": o[:300]})
+            else:
+                mism.append({"case": case, "impl": {k: r[k] for k in ("load", "postfix", "value", "err")},
+                             "model": o[:300], "what": bad})
         # property oracle on a sub-stream (all ill-formed / clash cases, a third of the well-formed ones)
         if bad is None and (kind in ("illformed", "clash") or (kind == "wf" and n_or % 3 == 0)):
             ok, detail = oracle(case)
             st.count("oracle")
             if not ok:
-                mism.append({"case": case, "violation": True, "detail": detail, "what": detail})
+                small = shrink(case)
+                ok2, detail2 = oracle(small)
+                mism.append({"case": small if not ok2 else case, "violation": True,
+                             "detail": detail2 if not ok2 else detail, "what": detail2 if not ok2 else detail})
         n_or += 1
         if len(mism) > 25:
             break
